@@ -29,7 +29,7 @@ const (
 )
 
 func run(c *vf.Ctx) {
-	c.Rule("history = one client posts a seeded script of /db/execute?raft_index requests (1-5 statements, 40% with ?transaction; single- and multi-row INSERT/UPDATE/DELETE on a rowid-alias table with UNIQUE and CHECK constraints, a plain rowid table, a table outside the configured filter, auxiliary tables created/dropped by DDL; statements that fail after touching rows (UNIQUE / CHECK midway) or at prepare) at about 30 requests/s to the leader (75%) or a random node of a live in-process 3-node cluster in which every node runs a real cdc.Service (batch size 1-5, batch delay 10-60 ms, HWM interval 100-600 ms, retry forever) posting to a recording endpoint that answers per a seeded plan (76% 200, 12% 500, 6% connection closed, 6% held beyond the transmit timeout; outages of 15-85 requests during which everything fails), while a seeded schedule steps the leader down (also twice during an outage), restarts nodes (leader or follower; close without snapshot, new service instance on the same fifo.db), takes user snapshots with 0-10 trailing logs. Every applied request is replayed on a shadow SQLite (stock driver, raw preupdate/commit hooks) to obtain the row changes, and the commit groups, of its log entry; unknown outcomes are resolved by comparing the strong-read state with shadow states. non-trivial = at least two leaders seen, at least one restart and one snapshot executed, endpoint retries observed, and at least 5 multi-statement non-transaction entries with more than one non-empty commit; distinct by case number")
+	c.Rule("history = one client posts a seeded script of /db/execute?raft_index requests (1-5 statements, 40% with ?transaction; single- and multi-row INSERT/UPDATE/DELETE on a rowid-alias table with UNIQUE and CHECK constraints, a plain rowid table, a table outside the configured filter, auxiliary tables created/dropped by DDL; statements that fail after touching rows (UNIQUE / CHECK midway) or at prepare) at about 30 requests/s to the leader (75%) or a random node of a live in-process 3-node cluster in which every node runs a real cdc.Service (batch size 1-5, batch delay 10-60 ms, HWM interval 100-600 ms, retry forever) posting to a recording endpoint that answers per a seeded plan (76% 200, 12% 500, 6% connection closed, 6% held beyond the transmit timeout; outages of 15-85 requests during which everything fails), while a seeded schedule steps the leader down (also twice during an outage), restarts nodes (leader or follower; close without snapshot, new service instance on the same fifo.db), takes user snapshots with 0-10 trailing logs. Every applied request is replayed on a shadow SQLite (stock driver, raw preupdate/commit hooks) to obtain the row changes, and the commit groups, of its log entry; unknown outcomes are resolved by comparing the strong-read state with shadow states. non-trivial = at least two leaders seen, at least one restart and one snapshot (user or automatic) executed, endpoint retries observed, and at least 5 multi-statement non-transaction entries with more than one non-empty commit; distinct by case number")
 	c.Assume("ground truth for the row changes of an entry are SQLite's own preupdate/commit hooks on a shadow database fed the same requests in log order; the shadow is validated per request (statement errors, rows affected) and at the end (schema and content equal to a strong read of the cluster), otherwise the history is inconclusive")
 	c.Assume("delivered = payloads the endpoint answered with 200; bodies answered 5xx / dropped / held are not deliveries")
 	c.Assume("never-delivered is decided after the endpoint has been healthy, the leader's FIFO has had nothing to send and no payload has arrived for 10 s (2.5 s when nothing required is missing); no quiet state within 150 s, or dropped_cdc_events > 0, is inconclusive")
@@ -81,6 +81,7 @@ func run(c *vf.Ctx) {
 		judge(c, i, &outs[i])
 	}
 	c.Require(int64((n*3+3)/4), c.N(2, 16))
+
 }
 
 func tailStr(s string, n int) string {
@@ -547,7 +548,7 @@ func judge(c *vf.Ctx, i int, h *histOut) {
 	for _, k := range []string{"cdc.service.retries", "cdc.service.fifo_enqueue_ignored", "cdc.service.batcher_write_ignored", "cdc.service.hwm_ignored", "cdc.service.snapshot_sync", "cdc.service.num_events_tx_ok"} {
 		c.Count(strings.ReplaceAll(k, ".", "_"), h.Expvar[k])
 	}
-	if len(h.Leaders) >= 2 && restarts >= 1 && snaps >= 1 && h.Expvar["cdc.service.retries"] > 0 && multiCommit >= 5 {
+	if len(h.Leaders) >= 2 && restarts >= 1 && (snaps >= 1 || h.Expvar["store.num_snapshots"] > 0) && h.Expvar["cdc.service.retries"] > 0 && multiCommit >= 5 {
 		c.Nontrivial(fmt.Sprintf("case%d", i))
 	}
 	if !bad {
